@@ -2,8 +2,11 @@ import abc
 import copy
 from typing import Dict, List, Optional, Sequence, TypeVar
 
+import numpy as np
+
 from classy_blocks.base import transforms as tr
 from classy_blocks.types import NPPointType, PointType, VectorType
+from classy_blocks.util.constants import DTYPE
 
 ElementBaseT = TypeVar("ElementBaseT", bound="ElementBase")
 
@@ -15,6 +18,10 @@ class ElementBase(abc.ABC):
     def translate(self: ElementBaseT, displacement: VectorType) -> ElementBaseT:
         """Move by displacement vector; returns the same instance
         to enable chaining of transformations."""
+        # parts are moved in place: the caller's vector can be one of
+        # this entity's own positions (e.g. entity.center) and must not change on the way
+        displacement = np.array(displacement, dtype=DTYPE)
+
         for component in self.parts:
             component.translate(displacement)
 
@@ -93,9 +100,13 @@ class ElementBase(abc.ABC):
             # of each self.part
             center = self.center
 
+            if isinstance(t7m, tr.Translation):
+                # see translate()
+                displacement = np.array(t7m.displacement, dtype=DTYPE)
+
             for part in self.parts:
                 if isinstance(t7m, tr.Translation):
-                    part.translate(t7m.displacement)
+                    part.translate(displacement)
                     continue
 
                 if isinstance(t7m, tr.Rotation):
